@@ -1,14 +1,17 @@
 //! Group "store": C04 (store holds only complete, verified points),
 //! C40 (cleanup keeps what is needed), C23 (crash safety of the store).
 mod common;
+mod cli;
 mod play;
 mod c04;
 mod c40;
+mod c23;
 
 fn run(name: &str, ctx: &mut rvcore::Ctx) -> bool {
     match name {
         "c04" => c04::run_c04(ctx),
         "c40" => c40::run_c40(ctx),
+        "c23" => c23::run_c23(ctx),
         _ => return false
     }
     true
@@ -18,7 +21,11 @@ fn special(name: &str, args: &[String]) -> Option<i32> {
     if let Some(code) = rpkitest::fake_rsync_special(name, args) {
         return Some(code)
     }
-    None
+    match name {
+        // `rv-store routinator <args…>` behaves like the routinator binary.
+        "routinator" => Some(cli::routinator_main(args)),
+        _ => None
+    }
 }
 
 fn main() { rvcore::main_with(run, special) }
